@@ -10,9 +10,9 @@ import (
 	"fmt"
 	"io"
 	"os"
-	"time"
 	"sort"
 	"strings"
+	"time"
 
 	"github.com/PowerDNS/lightningstream/snapshot"
 	"github.com/PowerDNS/lightningstream/syncer"
@@ -90,7 +90,11 @@ func main() {
 
 	alpha := []byte{0, 1, 'a'}
 	T0 := time.Now()
-	lap := func(n string) { if os.Getenv("VERIF_LAP") != "" { fmt.Fprintln(os.Stderr, "lap", n, time.Since(T0)) } }
+	lap := func(n string) {
+		if os.Getenv("VERIF_LAP") != "" {
+			fmt.Fprintln(os.Stderr, "lap", n, time.Since(T0))
+		}
+	}
 
 	// ---------- pair level ----------
 	pp := &ev.Part{Name: "pair-encode-decode", Engine: "E1", Exhaustive: true}
@@ -321,8 +325,14 @@ func main() {
 	type op struct {
 		del  bool
 		k, v string
+		repl string // if set: the same transaction first deletes the pair (k, repl)
 	}
-	opsAlpha := []op{{false, "a", "1"}, {false, "a", "2"}, {false, "c", ""}, {false, "b", "1"}, {true, "a", "1"}, {true, "a", "2"}, {false, "a\x00", "\x001"}}
+	// two values longer than the space left in the shadow key that differ only in their last byte
+	// (LMDB limits duplicate values to 511 bytes; with a 200-byte key 306 value bytes fit into the shadow key)
+	longK := string(rep('L', 200))
+	long1, long2 := string(rep('x', 306))+"-1", string(rep('x', 306))+"-2"
+	opsAlpha := []op{{false, "a", "1", ""}, {false, "a", "2", ""}, {false, "c", "", ""}, {false, "b", "1", ""}, {true, "a", "1", ""}, {true, "a", "2", ""}, {false, "a\x00", "\x001", ""},
+		{false, longK, long1, ""}, {false, longK, long2, long1}, {true, "z", "0", ""}}
 	var seqs [][]int
 	for i := range opsAlpha {
 		seqs = append(seqs, []int{i})
@@ -336,7 +346,16 @@ func main() {
 		}
 	}
 	const dflags = lmdb.DupSort
+	// every sequence from a DBI holding one pair, and from a duplicate-keys DBI that was created but never filled
+	var runs [][]int
 	for _, seq := range seqs {
+		runs = append(runs, seq, append([]int{-1}, seq...))
+	}
+	for _, seq := range runs {
+		emptyStart := seq[0] == -1
+		if emptyStart {
+			seq = seq[1:]
+		}
 		bkt := world.NewBucket()
 		a := inst.New("a", bkt, inst.Opt{DupSortHack: true})
 		b := inst.New("b", bkt, inst.Opt{DupSortHack: true})
@@ -344,6 +363,9 @@ func main() {
 		model := map[string]bool{}
 		apply := func(i *inst.Inst, o op) {
 			i.AppTxn(func(txn *lmdb.Txn) error {
+				if o.repl != "" {
+					inst.PlainDel(txn, "dups", dflags, []byte(o.k), []byte(o.repl))
+				}
 				if o.del {
 					inst.PlainDel(txn, "dups", dflags, []byte(o.k), []byte(o.v))
 				} else {
@@ -352,17 +374,31 @@ func main() {
 				return nil
 			})
 		}
-		// initial content on A, captured by a first send
-		apply(a, op{false, "z", "0"})
-		model["z=0"] = true
 		fail := false
 		var lastB uint64
-		step := func(o op) {
-			apply(a, o)
-			if o.del {
-				delete(model, o.k+"="+o.v)
-			} else {
-				model[o.k+"="+o.v] = true
+		var step func(o op)
+		if emptyStart {
+			// the application has created its duplicate-keys DBI and not written to it yet
+			a.AppTxn(func(txn *lmdb.Txn) error {
+				_, err := txn.OpenDBI("dups", lmdb.Create|dflags)
+				return err
+			})
+		} else {
+			// initial content on A, captured by the first send
+			apply(a, op{false, "z", "0", ""})
+			model["z=0"] = true
+		}
+		step = func(o op) {
+			if o.k != "" {
+				apply(a, o)
+				if o.repl != "" {
+					delete(model, o.k+"="+o.repl)
+				}
+				if o.del {
+					delete(model, o.k+"="+o.v)
+				} else {
+					model[o.k+"="+o.v] = true
+				}
 			}
 			pc.Transitions++
 			want := modelString(model)
@@ -390,7 +426,10 @@ func main() {
 			}
 			for _, d := range snap.Databases {
 				if d.Name() == "dups" && d.Transform() != snapshot.TransformDupSortHackV1 {
-					r.Violate(pc.Name, "snapshot-lacks-transform", fmt.Sprintf("snapshot DBI transform %q", d.Transform()), nil)
+					r.Violate(pc.Name, "snapshot-lacks-transform", fmt.Sprintf("ops %v (empty start %v): snapshot DBI transform %q", seq, emptyStart, d.Transform()), nil)
+				}
+				if d.Name() == "dups" && d.Flags()&uint64(dflags) == 0 {
+					r.Violate(pc.Name, "snapshot-lacks-dupsort-flag", fmt.Sprintf("ops %v (empty start %v): snapshot DBI flags %#x", seq, emptyStart, d.Flags()), nil)
 				}
 			}
 			id, _, err := b.Load(newest, data, 0)
@@ -413,6 +452,9 @@ func main() {
 			if _, _, err := nat.Load(newest, data, 0); err == nil {
 				r.Violate(pc.Name, "native-receiver-accepts-transform", "native mode instance merged a dupsort_hack snapshot", nil)
 			}
+		}
+		if emptyStart {
+			step(op{}) // sync the empty DBI first: the replica creates it from this snapshot
 		}
 		for _, oi := range seq {
 			if fail {
@@ -451,7 +493,7 @@ func main() {
 	}
 	pc.States = int64(len(seqs))
 	pc.Distinct = int64(len(cclasses))
-	pc.Bound = fmt.Sprintf("all application op sequences of length<=%d over %d ops on a real MDB_DUPSORT DBI (same key/different values, empty value, delete of one duplicate, key a vs a00), each followed by real SendOnce on A and LoadOnce on B (both with the hack), and LoadOnce on a native receiver", ev.Pick(r, 2, 3), len(opsAlpha))
+	pc.Bound = fmt.Sprintf("all application op sequences of length<=%d over %d ops on a real MDB_DUPSORT DBI (same key/different values, empty value, delete of one duplicate, key a vs a00, 308-byte values under a 200-byte key differing only beyond what fits into the shadow key incl. replacing one by the other in one transaction, deleting the last pair), from a DBI with one pair and from a created-but-empty DBI, each followed by real SendOnce on A and LoadOnce on B (both with the hack), and LoadOnce on a native receiver", ev.Pick(r, 2, 3), len(opsAlpha))
 	pc.Samples = []any{"put a=1; put a=2; del a=1"}
 	r.AddPart(pc)
 	lap("cycle")
